@@ -102,7 +102,12 @@ def _get_array_module(obj):
 
 def asnumpy(arr, copy=False):
     """return numpy array"""
-    if isinstance(arr, (list, tuple)):
+    if isinstance(arr, dict):
+        return {key: asnumpy(arr[key], copy=copy) for key in arr}
+    elif isinstance(arr, tuple) and hasattr(arr, "_fields"):
+        # namedtuple
+        return type(arr)(*(asnumpy(item, copy=copy) for item in arr))
+    elif isinstance(arr, (list, tuple)):
         # list or tuple
         return type(arr)(asnumpy(item, copy=copy) for item in arr)
     elif is_array_module(arr, "cupy"):
